@@ -39,6 +39,17 @@ def gen_case(rng, tier, idx):
         c = gen_deep_cancel_history(rng, tier)
         c["drive"] = "direct"
         return c
+    if idx % 16 == 3:
+        from ..direct import gen_both_sides_market_history
+
+        c = gen_both_sides_market_history(rng, tier)
+        c["drive"] = "direct"
+        return c
+    if idx % 16 == 11:
+        # a small book and frequent requests that are refused by design between the normal ones
+        c = gen_history(rng, tier, {"p_refused": 0.2, "max_levels": 4, "tick": rng.choice([1.0, 0.1, 0.5, 0.01])})
+        c["drive"] = "direct"
+        return c
     c = gen_history(rng, tier)
     c["drive"] = "direct"
     return c
